@@ -5,6 +5,7 @@
 import BespokeVerif.Model.Layout
 import BespokeVerif.Lemmas.Layout
 import BespokeVerif.Props.C02
+import BespokeVerif.Lemmas.Parse
 namespace BV.C05
 open BV
 
@@ -313,5 +314,43 @@ theorem zone_concatenates (cfg : Cfg) (mid : List Line) (l₁ l₂ : Line) (st :
   rw [hz'] at hget
   rw [hz] at hget
   rw [C02.placed_at_cursor cfg zsA LA l₂ p₂ zsB LB z' hstep hget hm, hc]
+
+/-! ### the text level: a zone / origin directive and what follows it on the same source line
+
+The layout theorems above speak about a list of statements.  The front end (`Model/Parse.lean`) turns
+a source line into such a list; these two theorems say that a statement written behind a zone or
+origin directive on the same line is simply the next statement of that list - so everything proved
+about "the statement after a zone switch" (it is placed at the selected zone's cursor, confined to
+that zone) holds for it as it does for a statement on the next line.  (The real code gave such a
+statement the zone of the start of the line: finding D38, fixed.) -/
+
+/-- `.memzone NAME rest…` (directive name in any letter case): the zone switch, then the statements
+    of the rest of the line -/
+theorem text_zone_directive_line (cfg : PCfg) (f : Nat) (d z rest : List Char)
+    (hd : NameText d) (hdot : d.head? = some '.') (hlow : lowerS d = ".memzone")
+    (hz : z ≠ [] ∧ ∀ c ∈ z, isWordChar c = true) (hr : ∀ c, rest.head? = some c → isWordChar c = false) :
+    parseStmts cfg (f + 1) (d ++ ' ' :: z ++ rest) =
+      (do let more ← parseStmts cfg f rest; .ok (.memzone (String.ofList z) :: more)) :=
+  parseStmts_memzone_front cfg f d z rest hd hdot hlow hz hr
+
+/-- `.org ARG label: rest…`: the origin directive with exactly `ARG` as its argument, then the
+    statements of the rest of the line, beginning with the label -/
+theorem text_origin_label_line (cfg : PCfg) (f : Nat) (d own after : List Char)
+    (hd : NameText d) (hdot : d.head? = some '.') (hlow : lowerS d = ".org")
+    (hown : ArgText own) (hafter : startsLabelDef (ptrimL after) = true) (hrt : ptrimR after = after) :
+    parseStmts cfg (f + 1) (d ++ ' ' :: own ++ ' ' :: after) =
+      (do let e ← parseExprText own
+          let more ← parseStmts cfg f after
+          .ok (.org e none :: more)) :=
+  parseStmts_org_label cfg f d own after hd hdot hlow hown hafter hrt
+
+-- the hypotheses are satisfiable: `.MemZone ZONE1 .byte 1`, `.ORG $20 next: nop`
+example : NameText ".MemZone".toList ∧ ".MemZone".toList.head? = some '.' ∧ lowerS ".MemZone".toList = ".memzone" ∧
+    ("ZONE1".toList ≠ [] ∧ ∀ c ∈ "ZONE1".toList, isWordChar c = true) ∧
+    (∀ c, " .byte 1".toList.head? = some c → isWordChar c = false) := by
+  refine ⟨by unfold NameText; decide, by decide, by rw [lowerS_eq]; decide, by decide, by decide⟩
+example : NameText ".ORG".toList ∧ lowerS ".ORG".toList = ".org" ∧ ArgText "$20".toList ∧
+    startsLabelDef (ptrimL "next: nop".toList) = true ∧ ptrimR "next: nop".toList = "next: nop".toList := by
+  refine ⟨by unfold NameText; decide, by rw [lowerS_eq]; decide, by unfold ArgText; decide, by decide, by decide⟩
 
 end BV.C05
